@@ -46,8 +46,13 @@ Contents(id) ==
     [] id = "J" -> EnvA \o <<B(N_mx, VNothing(TNum))>>               \* with an optional, absent (not realisable as a map entry)
     [] id = "L" -> EnvA \o <<B(N_mx, VJust(TNum, NumV(9)))>>         \* ... present
     [] id = "K" -> <<>>                                               \* empty environment
+    \* two fields of one composite type (a raw type environment typically shares the *Type): equal, and differing in the second
+    [] id = "M" -> <<B(N_n, NumV(3)), B(N_ob, IO(TObj(<<Fld(N_p, TList(TNum)), Fld(N_q, TList(TNum))>>),
+                                                  <<IL(TList(TNum), <<NumV(1)>>), IL(TList(TNum), <<NumV(2)>>)>>))>>
+    [] id = "N" -> <<B(N_n, NumV(3)), B(N_ob, IO(TObj(<<Fld(N_p, TList(TNum)), Fld(N_q, TList(TStr))>>),
+                                                  <<IL(TList(TNum), <<NumV(1)>>), IL(TList(TStr), <<VStr(<<97>>)>>)>>))>>
     [] OTHER -> <<>>
-ContentIds == <<"A", "B", "C", "D", "E", "F", "G", "H", "I", "J", "K", "L">>
+ContentIds == <<"A", "B", "C", "D", "E", "F", "G", "H", "I", "J", "K", "L", "M", "N">>
 Kinds == <<"raw", "struct", "map">>
 \* environment objects: index = (content, kind)
 EnvObjs == Prod2(ContentIds, Kinds, LAMBDA c, k : [id |-> c, kind |-> k, binds |-> Contents(c)])
@@ -65,6 +70,8 @@ PairSrcs == IF P_SIZE >= 1 THEN <<SRC_n_plus_1, SRC_ob_a_plus_n, SRC_t1_t2, SRC_
 PairHists ==
   Prod3(Prod2(<<"A", "C", "E", "F", "K", "J">>, Kinds, LAMBDA c, k : ObjIdx(c, k)), [i \in 1..Len(EnvObjs) |-> i], PairSrcs,
         LAMBDA t, v, s : <<Compile(1, s, t), Invoke(1, v)>>)
+    \o Prod3(Prod2(<<"M", "N">>, Kinds, LAMBDA c, k : ObjIdx(c, k)), Prod2(<<"M", "N", "A">>, Kinds, LAMBDA c, k : ObjIdx(c, k)), <<SRC_n_plus_1>>,
+              LAMBDA t, v, s : <<Compile(1, s, t), Invoke(1, v)>>)
 TotalSrcs == <<SRC_n_plus_1, SRC_syntax_err, SRC_type_err, SRC_lex_err, SRC_xs_n, SRC_deep_idx, SRC_mod0, SRC_key_zz, SRC_bad_regex,
                SRC_if_guard, SRC_union_xs, SRC_print_n, SRC_string_m, SRC_t1_t2, SRC_nested, SRC_m_b>>
 TotalHists ==
